@@ -127,19 +127,19 @@ func c13RegistryOrigin(p *Prog, r *Report) {
 			continue
 		}
 		info := fi.Pkg.TypesInfo
-		f := p.FlatOf(fi)
+		// helpers (and closures run by a locking helper) are spliced in
+		f := p.FlatInl(fi)
 		// the found-flag of the map lookup
 		var okObj types.Object
-		ast.Inspect(fi.Decl.Body, func(x ast.Node) bool {
-			if as, ok := x.(*ast.AssignStmt); ok && len(as.Lhs) == 2 && len(as.Rhs) == 1 {
+		for _, gn := range f.Nodes {
+			if as, ok := gn.Ast.(*ast.AssignStmt); ok && len(as.Lhs) == 2 && len(as.Rhs) == 1 {
 				if c, ok := ast.Unparen(as.Rhs[0]).(*ast.CallExpr); ok {
 					if sel, ok := c.Fun.(*ast.SelectorExpr); ok && sel.Sel.Name == "Load" {
 						okObj = objOf(info, as.Lhs[1])
 					}
 				}
 			}
-			return true
-		})
+		}
 		var idObj types.Object
 		for _, fld := range fi.Decl.Type.Params.List {
 			for _, nm := range fld.Names {
